@@ -195,10 +195,11 @@ def run(ctx):
 	crosscheck_tables(ctx)
 	r = ctx.rng("c10")
 	for i in range(ctx.scale(1200, 40000)):
-		run_config(ctx, r, i, gen)
+		run_config(ctx, ctx.case_rng("config", i), i, gen)
 		ctx.count("configurations")
 		if ctx.too_many() or ctx.time_left() < 0:
 			break
+	ctx.current_case = None
 	sp = ctx.extra.pop("_spread", {})
 	ctx.extra["distinct_offsets_seen_inside_randomised_windows"] = {k: len(v) for k, v in sp.items()}
 	for k, v in sp.items():
@@ -213,6 +214,8 @@ def run(ctx):
 
 
 def replay(ctx, data):
-	ctx.rule = "replay: configurations are regenerated from the seed; rerunning the check with the recorded seed"
+	if common.replay_case(ctx, data, {"config": lambda c, r, i: run_config(c, r, i, __import__("rand_burst_gen").RandBurstGen())}):
+		return
+	ctx.rule = "replay: no case coordinates in the witness; rerunning the check with the recorded seed"
 	ctx.seed = data.get("seed", 0)
 	run(ctx)
